@@ -1082,7 +1082,11 @@ impl<'a> JitMemory<'a> {
             }
 
             // Protect it.
-            libc::mprotect(ptr.cast(), size, libc::PROT_EXEC | libc::PROT_WRITE);
+            if libc::mprotect(ptr.cast(), size, libc::PROT_EXEC | libc::PROT_WRITE) != 0 {
+                let err = std::io::Error::last_os_error();
+                std::alloc::dealloc(ptr, layout);
+                return Err(err);
+            }
 
             // Convert to a slice.
             std::slice::from_raw_parts_mut(ptr, size)
